@@ -1078,6 +1078,31 @@ theorem C07_call_after_burst_stdio (F : Facts) (hF : F.stdioOnError = .resync) (
       [.value (wfResult n (.obj o))]).tbl.got n = some (.ok (.obj o)) :=
   C07_later_call_stdio F H _ (C07_burst_stdio F hF H m hm ps st h).1 n o
 
+/-- padding a frame with JSON white space (space, tab, CR, LF — in front, behind, any mixture, any length) does not change
+    anything: the line is lexed to the very frame (`json.Unmarshal` skips exactly that white space), so in EVERY region of the
+    family the reader does with it what it does with the bare frame -/
+theorem C07_stdio_padding_irrelevant (F : Facts) (H : List Text) (st : StdioSt) (lead trail : Text) (v : Json)
+    (hl : lead.all jsonWs = true) (ht : trail.all jsonWs = true) :
+    stdioStep F H st (lexLine ⟨lead, v, trail⟩) = stdioStep F H st (.value v) := by
+  simp [lexLine, hl, ht]
+
+/-- … in particular (good region — today): garbage of any kind, then the well-formed answer to call `c` with white space
+    around it — `c` gets its result -/
+theorem C07_padded_answer_delivered (F : Facts) (hF : F.stdioOnError = .resync) (H : List Text) (st : StdioSt) (c : Nat)
+    (h1 : st.halt = none) (h2 : c ∈ st.tbl.pending) (h3 : st.tbl.got c = none) (g : List Frame)
+    (hg : ∀ f ∈ g, stdioAddressed c f = false) (o : Obj) (lead trail : Text)
+    (hl : lead.all jsonWs = true) (ht : trail.all jsonWs = true) :
+    (stdioRun F H st (g ++ [lexLine ⟨lead, wfResult c (.obj o), trail⟩])).tbl.got c = some (.ok (.obj o)) := by
+  have : lexLine ⟨lead, wfResult c (.obj o), trail⟩ = .value (wfResult c (.obj o)) := by simp [lexLine, hl, ht]
+  rw [this]
+  exact C07_resync_stdio F hF H st c h1 h2 h3 g hg o
+
+/-- a byte around the value that is not JSON white space (a vertical tab: white space for `bytes.TrimSpace` only) makes the
+    line a non-JSON line: skipped by the line reader, the end of a decoder loop -/
+example : lexLine ⟨[11], wfResult 2 (.obj []), []⟩ = .garbage ∧ lexLine ⟨[], wfResult 2 (.obj []), [32, 0xC2, 0x85]⟩ = .garbage ∧
+    lexLine ⟨[32, 9, 13], wfResult 2 (.obj []), [13]⟩ = .value (wfResult 2 (.obj [])) := by
+  simp [lexLine, jsonWs]
+
 /-- Close ends the read loop whatever it is doing (the loop condition reads `closed`) -/
 theorem C07_close_ok_stdio (st : StdioSt) : (stdioClose st).spinning = false := by
   simp [stdioClose, StdioSt.spinning]
